@@ -97,6 +97,25 @@ Fixpoint rra_p (fuel : nat) (S : schema) (path : list (N * N)) (r w : N) : optio
 Definition rra (fuel : nat) (S : schema) (r w : N) : option (list N) := rra_p fuel S [] r w.
 Definition rra_fuel (S : schema) : nat := Datatypes.S (length (stypes S) * length (swss S)).
 
+(* RecursiveRoleAncestors as repaired (findings C13-F2/F3): one depth-first closure over the
+   inheritance rules of the workspace and all its ancestors; a role already collected is not
+   expanded again, so cycles terminate *)
+Fixpoint rra_dfs (fuel : nat) (S : schema) (wss : list N) (r : N) (acc : list N) : list N :=
+  match fuel with
+  | O => acc
+  | Datatypes.S f =>
+    if mem r acc then acc else
+    fold_left (fun acc w => fold_left (fun acc rl =>
+        if mem acl_op_inherits (rops rl) && (rprin rl =? r)
+        then fold_left (fun acc t => if fmatch (rflt rl) t && trole t then rra_dfs f S wss (tname t) acc else acc)
+                       (vis_types S w) acc
+        else acc) (acl_of S w) acc) wss (sins r acc)
+  end.
+(* `closure` = which of the two shapes the source has (translator: acl_rra_closure) *)
+Definition rra_any (closure : bool) (S : schema) (r w : N) : option (list N) :=
+  if closure then Some (rra_dfs (Datatypes.S (length (stypes S))) S (ws_order S w) r [])
+  else rra (rra_fuel S) S r w.
+
 (* ---- role expansion of IsOperationAllowed: `for _, r := range roles { roles.Add(...) }` ----
    The loop iterates the backing array of the initial slice (length n0, capacity cap0).  While
    Add still fits into that array (slices.Insert shifts in place) the loop sees the shifted
@@ -104,6 +123,11 @@ Definition rra_fuel (S : schema) : nat := Datatypes.S (length (stypes S) * lengt
 Definition next_cap (c : nat) : nat := match c with O => 1%nat | _ => (2 * c)%nat end.
 Definition cap_for (n : nat) : nat :=
   fold_left (fun c k => if Nat.ltb c k then next_cap c else c) (seq 1 n) O.
+
+(* the three places where the source may have one of two shapes (read by the translator) *)
+Record cfg := mkCfg { c_aliased : bool; c_chkfield : bool; c_closure : bool }.
+Definition cur_cfg : cfg := mkCfg acl_roles_loop_aliased acl_grant_checks_field acl_rra_closure.
+Definition found_cfg : cfg := mkCfg true false false.   (* the code as first read *)
 
 Record xst := mkX { xcur : list N; xshared : bool; xview : list N }.
 
@@ -114,24 +138,24 @@ Definition x_add1 (aliased : bool) (n0 cap0 : nat) (st : xst) (q : N) : xst :=
   then mkX cur' true (if aliased then firstn n0 cur' else xview st)
   else mkX cur' false (xview st).
 
-Fixpoint x_loop (aliased : bool) (S : schema) (w : N) (n0 cap0 : nat) (idx : list nat) (st : xst) : option xst :=
+Fixpoint x_loop (aliased closure : bool) (S : schema) (w : N) (n0 cap0 : nat) (idx : list nat) (st : xst) : option xst :=
   match idx with
   | [] => Some st
   | i :: rest =>
     let r := nth i (xview st) 0 in
     if is_role S w r then
-      match rra (rra_fuel S) S r w with
+      match rra_any closure S r w with
       | None => None
-      | Some adds => x_loop aliased S w n0 cap0 rest (fold_left (x_add1 aliased n0 cap0) adds st)
+      | Some adds => x_loop aliased closure S w n0 cap0 rest (fold_left (x_add1 aliased n0 cap0) adds st)
       end
-    else x_loop aliased S w n0 cap0 rest st
+    else x_loop aliased closure S w n0 cap0 rest st
   end.
 
-Definition expand_gen (aliased : bool) (S : schema) (w : N) (rol : list N) : option (list N) :=
+Definition expand_gen (aliased closure : bool) (S : schema) (w : N) (rol : list N) : option (list N) :=
   let r0 := sfrom rol in
   let n0 := length r0 in
-  option_map xcur (x_loop aliased S w n0 (cap_for n0) (seq 0 n0) (mkX r0 true r0)).
-Definition expand := expand_gen acl_roles_loop_aliased.
+  option_map xcur (x_loop aliased closure S w n0 (cap_for n0) (seq 0 n0) (mkX r0 true r0)).
+Definition expand := expand_gen acl_roles_loop_aliased acl_rra_closure.
 
 (* ---- checkOperationOnTypeForRoles ---- *)
 Definition has_fields (rl : rule) : bool := negb (is_nil (rfields rl)).
@@ -141,33 +165,37 @@ Definition matched (op : N) (t : typ) (roles : list N) (rl : rule) : bool :=
 Definition uadd (xs l : list N) : list N := fold_left (fun acc x => if mem x acc then acc else x :: acc) xs l.
 Definition remove_all (xs l : list N) : list N := filter (fun y => negb (mem y xs)) l.
 
-Definition step (op : N) (t : typ) (st : bool * list N) (rl : rule) : bool * list N :=
+(* chk = the Allow branch adds only fields the resource has and derives `result` from the map
+   (repair of finding C13-F4); chk = false is the code as found *)
+Definition step (chk : bool) (op : N) (t : typ) (st : bool * list N) (rl : rule) : bool * list N :=
   match tflds t with
   | Some fs =>
     if rallow rl then
-      (true, if has_fields rl
-             then (if op =? acl_op_select then uadd (filter is_sys fs) else (fun l => l)) (uadd (rfields rl) (snd st))
-             else uadd fs (snd st))
+      let a := if has_fields rl
+               then (if op =? acl_op_select then uadd (filter is_sys fs) else (fun l => l))
+                      (uadd (if chk then filter (fun f => mem f fs) (rfields rl) else rfields rl) (snd st))
+               else uadd fs (snd st) in
+      (if chk then negb (is_nil a) else true, a)
     else if has_fields rl
       then let a := remove_all (rfields rl) (snd st) in (negb (is_nil a), a)
       else (false, [])
   | None => (rallow rl, snd st)
   end.
-Definition fstep (op : N) (t : typ) (roles : list N) (st : bool * list N) (rl : rule) : bool * list N :=
-  if matched op t roles rl then step op t st rl else st.
-Definition run (op : N) (t : typ) (roles : list N) (rules : list rule) : bool * list N :=
-  fold_left (fstep op t roles) rules (false, []).
+Definition fstep (chk : bool) (op : N) (t : typ) (roles : list N) (st : bool * list N) (rl : rule) : bool * list N :=
+  if matched op t roles rl then step chk op t st rl else st.
+Definition run (chk : bool) (op : N) (t : typ) (roles : list N) (rules : list rule) : bool * list N :=
+  fold_left (fstep chk op t roles) rules (false, []).
 
 (* (allowed, allowedFields); None = nil map = "all fields" *)
-Definition check_rules (sysr op : N) (t : typ) (roles : list N) (rules : list rule) : bool * option (list N) :=
+Definition check_rules (chk : bool) (sysr op : N) (t : typ) (roles : list N) (rules : list rule) : bool * option (list N) :=
   if mem sysr roles then (true, None) else
-  let st := run op t roles rules in
+  let st := run chk op t roles rules in
   match tflds t with
   | Some fs => if fst st && Nat.eqb (length (snd st)) (length fs) then (true, None) else (fst st, Some (snd st))
   | None => (fst st, None)
   end.
-Definition decide (sysr op : N) (t : typ) (fld roles : list N) (rules : list rule) : bool :=
-  let '(res, af) := check_rules sysr op t roles rules in
+Definition decide (chk : bool) (sysr op : N) (t : typ) (fld roles : list N) (rules : list rule) : bool :=
+  let '(res, af) := check_rules chk sysr op t roles rules in
   match af with
   | Some alw => if res && negb (is_nil alw) then forallb (fun f => mem f alw) fld else res
   | None => res
@@ -191,7 +219,7 @@ Definition validate (op : N) (t : typ) (fld : list N) : option N :=
   else if op =? acl_op_execute then (if tfun t then None else Some e_incompatible)
   else Some e_unsupported.
 
-Definition is_allowed_gen (aliased : bool) (S : schema) (sysr w op res : N) (fld rol : list N) : outcome :=
+Definition is_allowed_gen (c : cfg) (S : schema) (sysr w op res : N) (fld rol : list N) : outcome :=
   match find_type S w res with
   | None => OErr e_notfound
   | Some t =>
@@ -199,30 +227,32 @@ Definition is_allowed_gen (aliased : bool) (S : schema) (sysr w op res : N) (fld
     | Some e => OErr e
     | None =>
       if is_nil (sfrom rol) then OErr e_missed else
-      match expand_gen aliased S w rol with
+      match expand_gen (c_aliased c) (c_closure c) S w rol with
       | None => OCrash
-      | Some roles => if decide sysr op t fld roles (all_rules S w) then OAllow else ODeny
+      | Some roles => if decide (c_chkfield c) sysr op t fld roles (all_rules S w) then OAllow else ODeny
       end
     end
   end.
-Definition is_allowed := is_allowed_gen acl_roles_loop_aliased.
+Definition is_allowed := is_allowed_gen cur_cfg.
 
 (* ---- PublishedTypes ---- *)
 Definition pub_entry := (N * list (N * option (list N)))%type.
-Definition published (S : schema) (sysr w role : N) : option (list pub_entry) :=
-  match (if is_role S w role then rra (rra_fuel S) S role w else Some (sfrom [role])) with
+Definition published_gen (c : cfg) (S : schema) (sysr w role : N) : option (list pub_entry) :=
+  match (if is_role S w role then rra_any (c_closure c) S role w else Some (sfrom [role])) with
   | None => None
   | Some roles =>
     Some (flat_map (fun t =>
       if tpub t then
         let ops := flat_map (fun o =>
-          let '(ok, af) := check_rules sysr o t roles (all_rules S w) in
+          let '(ok, af) := check_rules (c_chkfield c) sysr o t roles (all_rules S w) in
           if ok then [(o, match af, tflds t with
                           | Some alw, Some fs => Some (filter (fun f => mem f alw) fs)
                           | _, _ => None end)] else []) (taclops t) in
         if is_nil ops then [] else [(tname t, ops)]
       else []) (vis_types S w))
   end.
+
+Definition published := published_gen cur_cfg.
 
 (* ================= declarative semantics (the oracle; independent of the code above) ========= *)
 
@@ -316,7 +346,7 @@ Definition pub_eqb : list pub_entry -> list pub_entry -> bool :=
 Definition agrees (t : trace) : bool :=
   let S := tr_schema t in
   forallb (fun q => outcome_eqb (is_allowed S (tr_sys t) (qws q) (qop q) (qres q) (qflds q) (qroles q)) (qout q)) (tr_queries t)
-  && forallb (fun a => option_eqb lN_eqb (rra (rra_fuel S) S (arole a) (aws a)) (Some (aout a))) (tr_rra t)
+  && forallb (fun a => option_eqb lN_eqb (rra_any acl_rra_closure S (arole a) (aws a)) (Some (aout a))) (tr_rra t)
   && forallb (fun p => option_eqb pub_eqb (published S (tr_sys t) (pws p) (prole p)) (Some (pout p))) (tr_pub t).
 
 (* the property judged on the observed outputs: a well-formed request gets exactly the decision the
